@@ -695,6 +695,92 @@ Proof.
       rewrite (afind_amap_other _ _ _ _ E) in Hk. exact Hk.
 Qed.
 
+Lemma amap_ext {A} c (g g' : A -> A) l : (forall x, g x = g' x) -> amap c g l = amap c g' l.
+Proof. intros H. unfold amap. apply map_ext. intros kv. destruct (String.eqb c (fst kv)); [rewrite H|]; reflexivity. Qed.
+Lemma amap_amap {A} c (g1 g2 : A -> A) l : amap c g2 (amap c g1 l) = amap c (fun x => g2 (g1 x)) l.
+Proof.
+  unfold amap. rewrite map_map. apply map_ext. intros [k v]. cbn [fst snd].
+  destruct (String.eqb c k) eqn:E; cbn [fst snd]; rewrite E; reflexivity.
+Qed.
+Lemma tupd_ext pp g g' : (forall d, g d = g' d) -> forall U, tupd pp g U = tupd pp g' U.
+Proof.
+  intros H. induction pp as [|c pp IH]; intros U; cbn [tupd]; [apply H|]. destruct U; try reflexivity.
+  f_equal. apply amap_ext. exact IH.
+Qed.
+Lemma tupd_tupd pp g1 g2 : forall U, tupd pp g2 (tupd pp g1 U) = tupd pp (fun d => g2 (g1 d)) U.
+Proof.
+  induction pp as [|c pp IH]; intros U; cbn [tupd]; [reflexivity|]. destruct U; try reflexivity. cbn [tupd].
+  f_equal. rewrite amap_amap. apply amap_ext. exact IH.
+Qed.
+Lemma tupd_snoc pp nm f : forall U, tupd (pp ++ [nm]) f U = tupd pp (chmap (amap nm f)) U.
+Proof.
+  induction pp as [|c pp IH]; intros U; cbn [app tupd].
+  - destruct U; reflexivity.
+  - destruct U; try reflexivity. f_equal. apply amap_ext. exact IH.
+Qed.
+
+(* ------------------------------------------------------------------ the copy-up mkdir (mkdir, then chmod when the lower mode has set-id bits) *)
+Lemma tupd_ext_at pp g g' : forall t d0, wf t -> tget t pp = Some d0 -> g d0 = g' d0 -> tupd pp g t = tupd pp g' t.
+Proof.
+  induction pp as [|c pp IH]; intros t d0 Hw Ht Hg; cbn [tget tupd] in *.
+  - inversion Ht; subst. exact Hg.
+  - destruct t as [m x ch| | |]; try discriminate. f_equal.
+    destruct (afind c ch) as [y|] eqn:Ey; [|discriminate].
+    inversion Hw as [? ? ? Hn Hall| | |]; subst. rewrite Forall_forall in Hall.
+    unfold amap. apply map_ext_in. intros [k v] Hin. cbn [fst snd]. destruct (String.eqb c k) eqn:E; [|reflexivity].
+    apply String.eqb_eq in E; subst k. pose proof (afind_In_nodup c v ch Hn Hin) as Hv. rewrite Ey in Hv. inversion Hv; subst v.
+    f_equal. apply (IH y d0); [apply (Hall (c, y) Hin)|exact Ht|exact Hg].
+Qed.
+Lemma amap_none {A} c (f : A -> A) l : afind c l = None -> amap c f l = l.
+Proof.
+  unfold amap. induction l as [|[k v] l IH]; cbn [map afind fst snd]; [reflexivity|].
+  destruct (String.eqb c k); [discriminate|]. intros H. rewrite (IH H). reflexivity.
+Qed.
+Lemma amap_aset_fresh {A} c (f : A -> A) v l : afind c l = None -> amap c f (aset c v l) = aset c (f v) l.
+Proof.
+  induction l as [|[k w] l IH]; cbn [aset afind]; intros H.
+  - unfold amap. cbn [map fst snd]. rewrite String.eqb_refl. reflexivity.
+  - destruct (String.eqb c k) eqn:E; [discriminate|]. unfold amap in *. cbn [map fst snd]. rewrite E. f_equal. apply IH. exact H.
+Qed.
+Lemma ri_mkdir_cu_spec pr nm m s r s2 : wf_layers s -> r_upper pr = true -> r_layer pr = 0%nat ->
+  ri_mkdir_cu pr nm m s = (Ok r, s2) ->
+  exists t t1, upper s = Some t /\ h_insert (r_path pr) nm (Dir (cu_mode m) [] []) t = Ok t1 /\
+    r = mkReal 0 true (r_path pr ++ [nm]) false false true /\
+    upper s2 = Some t1 /\ lowers s2 = lowers s /\ root s2 = root s.
+Proof.
+  intros Hwl Hu Hl. unfold ri_mkdir_cu. unfold bind at 1.
+  destruct (ri_mkdir pr nm m s) as [[ri|e] s1] eqn:Ec; [|discriminate].
+  destruct (ri_mkdir_spec _ _ _ _ _ _ Hu Hl Ec) as (t & t1 & Eu & Hc & -> & Eu1 & Hlow1 & Hroot1).
+  pose proof (h_insert_get _ _ _ _ _ Hc) as Hg1. unfold cu_mode.
+  destruct (has_setid m).
+  - unfold bind at 1. cbn [r_layer r_path].
+    destruct (mutate 0 (h_chmod (r_path pr ++ [nm]) m) s1) as [[[]|e] s3] eqn:Em; [|discriminate].
+    destruct (mutate0_spec _ _ _ Em) as (u & u' & A & B & C & D & E). rewrite Eu1 in A. inversion A; subst u.
+    unfold h_chmod, h_update in B. rewrite Hg1 in B. inversion B; subst u'.
+    cbn [ret]. intros H; inversion H; subst. exists t, (tupd (r_path pr ++ [nm]) (set_mode m) t1).
+    split; [exact Eu|]. split; [|split; [reflexivity|split; [exact C|split; congruence]]].
+    unfold h_mkdir, h_insert in *. destruct (tget t (r_path pr)) as [[m0 x0 ch0| | |]|] eqn:Etg; try discriminate.
+    destruct (afind nm ch0) eqn:Enm; [discriminate|]. inversion Hc; subst t1. f_equal.
+    rewrite tupd_snoc, tupd_tupd. symmetry.
+    apply (tupd_ext_at (r_path pr) _ _ t (Dir m0 x0 ch0)); [apply (wf_layers_wf s Hwl 0%nat t); exact Eu|exact Etg|].
+    cbn [dir_ins chmap]. rewrite (amap_aset_fresh nm (set_mode m) _ ch0 Enm). reflexivity.
+  - unfold bind at 1. cbn [ret]. intros H; inversion H; subst. exists t, t1. unfold h_mkdir in Hc. auto 8.
+Qed.
+Lemma ri_mkdir_cu_fail pr nm m s e s2 : r_upper pr = true -> r_layer pr = 0%nat -> ri_mkdir_cu pr nm m s = (Err e, s2) -> s2 = s.
+Proof.
+  intros Hu Hl. unfold ri_mkdir_cu. unfold bind at 1.
+  destruct (ri_mkdir pr nm m s) as [[ri|e0] s1] eqn:Ec.
+  - destruct (ri_mkdir_spec _ _ _ _ _ _ Hu Hl Ec) as (t & t1 & Eu & Hc & -> & Eu1 & Hlow1 & Hroot1).
+    pose proof (h_insert_get _ _ _ _ _ Hc) as Hg1.
+    destruct (has_setid m); [|unfold bind at 1; cbn [ret]; discriminate].
+    unfold bind at 1. cbn [r_layer r_path]. unfold mutate. cbn [get_layer]. rewrite Eu1.
+    unfold h_chmod, h_update. rewrite Hg1. cbn [ret]. discriminate.
+  - intros H. inversion H; subst. unfold ri_mkdir, ri_guard in Ec. rewrite Hu, Hl in Ec. unfold bind at 1 in Ec. cbn [ret] in Ec. unfold bind at 1 in Ec.
+    destruct (mutate 0 (h_mkdir (r_path pr) nm m) s) as [[[]|e'] s3] eqn:Em; [inversion Ec|].
+    inversion Ec; subst. unfold mutate in Em. cbn [get_layer] in Em. destruct (upper s) as [u|]; [|inversion Em; reflexivity].
+    destruct (h_mkdir (r_path pr) nm m u); inversion Em; reflexivity.
+Qed.
+
 (* ------------------------------------------------------------------ create_upper_dir keeps the state coherent *)
 Lemma split_last_spec p pp nm : split_last p = Some (pp, nm) -> p = pp ++ [nm].
 Proof.
@@ -793,15 +879,11 @@ Proof.
   destruct (n_reals pn') as [|pr prs] eqn:Epr; [discriminate|]. rewrite Hpu in Hrun. cbn [ret] in Hrun.
   destruct (first_upper_stack s1 pp pn' pr prs Npn Epr Hpu) as (Hl0 & Hpp & rest & Hstk).
   unfold bind at 1 in Hrun.
-  destruct (ri_mkdir pr nm (mode_of st) s1) as [[ri|e] s2] eqn:Emk.
-  2:{ assert (s2 = s1).
-      { unfold ri_mkdir, ri_guard in Emk. rewrite Hpu in Emk. unfold bind at 1 in Emk. cbn [ret] in Emk. unfold bind at 1 in Emk.
-        unfold mutate in Emk. rewrite Hl0 in Emk. cbn [get_layer] in Emk. destruct (upper s1) as [u1|]; [|inversion Emk; reflexivity].
-        destruct (h_mkdir (r_path pr) nm (mode_of st) u1); inversion Emk; reflexivity. }
-      subst s2. exact (Keep1 _ Hrun). }
-  destruct (ri_mkdir_spec _ _ _ _ _ _ Hpu Hl0 Emk) as (U & U1 & HU & Hmk & -> & HU2 & Hlow2 & Hroot2).
+  destruct (ri_mkdir_cu pr nm (mode_of st) s1) as [[ri|e] s2] eqn:Emk.
+  2:{ pose proof (ri_mkdir_cu_fail _ _ _ _ _ _ Hpu Hl0 Emk). subst s2. exact (Keep1 _ Hrun). }
+  destruct (ri_mkdir_cu_spec _ _ _ _ _ _ Hw1 Hpu Hl0 Emk) as (U & U1 & HU & Hmk & -> & HU2 & Hlow2 & Hroot2).
   rewrite Hpp in *.
-  unfold h_mkdir, h_insert in Hmk. destruct (tget U pp) as [[m x ch| | |]|] eqn:Etg; try discriminate.
+  unfold h_insert in Hmk. destruct (tget U pp) as [[m x ch| | |]|] eqn:Etg; try discriminate.
   destruct (afind nm ch) eqn:Enm; [discriminate|]. inversion Hmk; subst U1; clear Hmk.
   destruct (same_paths_some s s1 _ _ SP1 Hg) as (n1 & Hn1 & Hsig1).
   pose proof (nget_child pp nm (root s1) pn' n1 Hgp1 Hn1) as Hchild.
@@ -813,7 +895,7 @@ Proof.
   { destruct (n_loaded pn') eqn:El; [reflexivity|]. rewrite (ok_unl _ _ _ _ Npn El) in Hchild. discriminate. }
   unfold mod_node in Hrun. inversion Hrun; subst r s'; clear Hrun.
   split; [|split; [|split; [|split]]].
-  - apply (dirup_block s1 _ U pp nm (N.land (mode_of st) 1023) pn' n1 rest m x ch); auto.
+  - apply (dirup_block s1 _ U pp nm (cu_mode (mode_of st)) pn' n1 rest m x ch); auto.
     cbn [root]. rewrite Hroot2. reflexivity.
   - apply (same_paths_trans s s1 _); [exact SP1|]. intros p'. cbn [root]. rewrite Hroot2.
     apply nget_nupd_sig with (n0 := n1); [intros m0; reflexivity|exact Hn1|]. unfold nsig, add_upper; cbn. rewrite Hfd1. reflexivity.
@@ -1221,29 +1303,6 @@ Proof.
 Qed.
 
 (* ------------------------------------------------------------------ composing updates of one directory of the upper tree *)
-Lemma amap_ext {A} c (g g' : A -> A) l : (forall x, g x = g' x) -> amap c g l = amap c g' l.
-Proof. intros H. unfold amap. apply map_ext. intros kv. destruct (String.eqb c (fst kv)); [rewrite H|]; reflexivity. Qed.
-Lemma amap_amap {A} c (g1 g2 : A -> A) l : amap c g2 (amap c g1 l) = amap c (fun x => g2 (g1 x)) l.
-Proof.
-  unfold amap. rewrite map_map. apply map_ext. intros [k v]. cbn [fst snd].
-  destruct (String.eqb c k) eqn:E; cbn [fst snd]; rewrite E; reflexivity.
-Qed.
-Lemma tupd_ext pp g g' : (forall d, g d = g' d) -> forall U, tupd pp g U = tupd pp g' U.
-Proof.
-  intros H. induction pp as [|c pp IH]; intros U; cbn [tupd]; [apply H|]. destruct U; try reflexivity.
-  f_equal. apply amap_ext. exact IH.
-Qed.
-Lemma tupd_tupd pp g1 g2 : forall U, tupd pp g2 (tupd pp g1 U) = tupd pp (fun d => g2 (g1 d)) U.
-Proof.
-  induction pp as [|c pp IH]; intros U; cbn [tupd]; [reflexivity|]. destruct U; try reflexivity. cbn [tupd].
-  f_equal. rewrite amap_amap. apply amap_ext. exact IH.
-Qed.
-Lemma tupd_snoc pp nm f : forall U, tupd (pp ++ [nm]) f U = tupd pp (chmap (amap nm f)) U.
-Proof.
-  induction pp as [|c pp IH]; intros U; cbn [app tupd].
-  - destruct U; reflexivity.
-  - destruct U; try reflexivity. f_equal. apply amap_ext. exact IH.
-Qed.
 Lemma chmap_chmap G1 G2 d : chmap G2 (chmap G1 d) = chmap (fun ch => G2 (G1 ch)) d.
 Proof. destruct d; reflexivity. Qed.
 Lemma dir_ins_chmap nm c d : dir_ins nm c d = chmap (aset nm c) d. Proof. destruct d; reflexivity. Qed.
@@ -3062,6 +3121,12 @@ Proof.
   - destruct (r_upper pr); [apply rrm_ret; reflexivity|apply rrm_fail].
   - intros _ Hu. apply rrm_bind with (post1 := fun _ => True); [apply rrm_mutate|]. intros _ _. apply rrm_ret. split; reflexivity.
 Qed.
+Lemma rrm_ri_mkdir_cu pr nm mode : rrm (ri_mkdir_cu pr nm mode) goodri.
+Proof.
+  unfold ri_mkdir_cu. apply rrm_bind with (post1 := goodri); [apply rrm_ri_mkdir|]. intros ri Hri.
+  apply rrm_bind with (post1 := fun _ => True); [destruct (has_setid mode); [apply rrm_mutate|apply rrm_ret; exact I]|].
+  intros _ _. apply rrm_ret. exact Hri.
+Qed.
 Lemma rrm_ri_create pr nm mode : rrm (ri_create pr nm mode) goodri.
 Proof.
   unfold ri_create, ri_guard. apply rrm_bind with (post1 := fun _ => r_upper pr = true).
@@ -3086,7 +3151,7 @@ Proof.
   apply rrm_bind with (post1 := fun _ => True); [apply rrm_if; [apply rrm_ret; exact I|apply IH]|]. intros _ _.
   apply rrm_bind with (post1 := fun _ => True); [apply rrm_get_node|]. intros pn' _.
   apply rrm_bind with (post1 := fun r => r_upper r = true); [apply rrm_upper_real|]. intros pr _.
-  apply rrm_bind with (post1 := goodri); [apply rrm_ri_mkdir|]. intros ri Hri. apply rrm_mod_add. exact Hri.
+  apply rrm_bind with (post1 := goodri); [apply rrm_ri_mkdir_cu|]. intros ri Hri. apply rrm_mod_add. exact Hri.
 Qed.
 Lemma rrm_cnu p : rrm (copy_node_up p) (fun _ => True).
 Proof.
